@@ -277,8 +277,8 @@ theorem sweep_fold_inv {cont : Bool} {sub : Sub} : ∀ (l : List Gen) (w : World
 
 /-- every generation defined so far is good (hypothesis of the `_partial` theorems; vacuous for `cont = true`) -/
 def OpGood (cont : Bool) (sub : Sub) : Op → Prop
-  | .define ctx _ states events services su sd =>
-    ∀ i, GoodGen cont sub (mkGen i ctx states events services su sd)
+  | .define ctx _ states events mqtts hooks services su sd =>
+    ∀ i, GoodGen cont sub (mkGen i ctx states events mqtts hooks services su sd)
   | _ => True
 
 /-- `started` generations are good -/
@@ -328,12 +328,12 @@ theorem lookupBind_refs {w : World} {ctx name : String} {i : Nat} (h : lookupBin
 theorem applyOp_inv {cont : Bool} {sub : Sub} {w : World} (h : WInv sub w) (hgood : AllGood cont sub w) (op : Op)
     (hop : OpGood cont sub op) : WInv sub (applyOp sub w op) ∧ AllGood cont sub (applyOp sub w op) := by
   cases op with
-  | define ctx name states events services su sd =>
+  | define ctx name states events mqtts hooks services su sd =>
     simp only [applyOp, setBind]
-    generalize hg0 : mkGen w.next ctx states events services su sd = g0
-    have hid : (effective w g0).id = w.next := by
+    generalize hg0 : mkGen w.next ctx states events mqtts hooks services su sd = g0
+    have hid : (effective sub w g0).id = w.next := by
       rw [← hg0]; unfold effective inert mkGen; split <;> rfl
-    obtain ⟨h1, hb, hs, hn, hst⟩ := startGen_inv (sub := sub) h (effective w g0) hid
+    obtain ⟨h1, hb, hs, hn, hst⟩ := startGen_inv (sub := sub) h (effective sub w g0) hid
     constructor
     · refine ⟨h1.tables, ?_, ?_, ?_⟩
       · exact h1.fresh
@@ -344,7 +344,7 @@ theorem applyOp_inv {cont : Bool} {sub : Sub} {w : World} (h : WInv sub w) (hgoo
         rcases hi with ⟨b, (⟨hb', _⟩ | rfl), hbi⟩ | ⟨s, hs', hsi⟩
         · obtain ⟨g', hg', hgi⟩ := h.live i ((refs_pos_iff w i).mpr (.inl ⟨b, hb', hbi⟩))
           exact ⟨g', by simp [hst, hg'], hgi⟩
-        · exact ⟨effective w g0, by simp [hst], hbi⟩
+        · exact ⟨effective sub w g0, by simp [hst], hbi⟩
         · obtain ⟨g', hg', hgi⟩ := h.live i ((refs_pos_iff w i).mpr (.inr ⟨s, hs', hsi⟩))
           exact ⟨g', by simp [hst, hg'], hgi⟩
     · intro g hg
